@@ -30,6 +30,8 @@ type FileIn struct {
 	Json json.RawMessage `json:"json,omitempty"`
 	Text string          `json:"text"`
 	Age  int             `json:"age"` // modification time: `age` seconds before the run starts (larger = older)
+	// LinkTo (cli only): the content is stored at this path and `path` is a symbolic link to it
+	LinkTo string `json:"linkTo,omitempty"`
 }
 
 type Fault struct {
